@@ -38,8 +38,11 @@ def product_info():
     return le(2101, 2) + le(666, 2) + fixed32('Arduino N2k->PC') + fixed32('1.0.0.0') + fixed32('1.0.0') + fixed32('00000001') + [0, 1]
 
 
-def config_info():
-    # installation description 1, installation description 2, manufacturer information
+def config_info(cfg=None):
+    # installation description 1, installation description 2, manufacturer information; each field holds at most 70 characters
+    if cfg and cfg.get('conf'):
+        a, b, m = [list(bytes.fromhex(x))[:70] if x != '-' else [] for x in cfg['conf'].split(',')]
+        return [len(a) + 2, 1] + a + [len(b) + 2, 1] + b + [len(m) + 2, 1] + m
     return varstr('') + varstr('') + varstr('NMEA2000 library, https://github.com/ttlappalainen/NMEA2000')
 
 
@@ -70,6 +73,8 @@ def parse_cfg(line):
         k, v = tok.split('=', 1)
         if k in ('fp0', 'fp1', 'sf0', 'sf1', 'iso') or (k[:2] in ('tx', 'rx') and k[2:].isdigit()):
             cfg[k] = [int(x) for x in v.split(',') if x]
+        elif k == 'conf':
+            cfg[k] = v
         else:
             cfg[k] = int(v)
     ops = [o.split() for o in opss.split(';')]
@@ -154,7 +159,7 @@ class Ref:
         return True
 
     def send_info(self, k, pgn):
-        ok = self.send(k, pgn, 255, product_info() if pgn == 126996 else config_info(), True)
+        ok = self.send(k, pgn, 255, product_info() if pgn == 126996 else config_info(self.cfg), True)
         self.retry[k][pgn] = None if ok else self.now + 187 + (8 if pgn == 126996 else 10) * self.src(k)
 
     # --- the property
@@ -485,6 +490,18 @@ def gen(seed, tier):
             if r.random() < 0.5:
                 ops += ['A ' + '0' * 60, req(r, 50, own[k], 126998), req(r, 50, 255, 126998), 'P', 'A', 'T 3000', 'P', 'P']
             cases.append(line + ' noconf=1 | ' + ' ; '.join(ops))
+    # 6c. configuration information set by the application (SetConfigurationInformation): string lengths around the 70 character field
+    #     limit, all three fields; the answer must carry exactly the configured strings (cut to 70 characters)
+    def cstr(n):
+        return bytes(r.choice(b'ABCDEFGHIJKLMNOPQRSTUVWXYZabcdefghijklmnopqrstuvwxyz0123456789 .,-/') for _ in range(n)).hex() or '-'
+    lens = [0, 1, 2, 35, 68, 69, 70, 71, 72, 100]
+    combos = [(70, 70, 70), (69, 70, 71), (71, 69, 70), (70, 71, 69), (0, 0, 70), (70, 0, 0), (0, 70, 0), (100, 100, 100), (1, 1, 1), (0, 0, 0)]
+    combos += [(r.choice(lens), r.choice(lens), r.choice(lens)) for _ in range(6 if not thorough else 120)]
+    for la, lb, lm in combos:
+        line, ndev, src0, mode = cfg_line(r, ndev=r.choice([1, 2]), q=40, lists=False)
+        own = [(src0 + i) & 255 for i in range(ndev)]
+        ops = [req(r, 50, own[0], 126998), 'P', req(r, 51, 255, 126998), 'P', req(r, 52, own[-1], 126998, ln=r.choice([3, 8])), 'P', 'T 3000', 'P']
+        cases.append(line + ' conf=%s,%s,%s | ' % (cstr(la), cstr(lb), cstr(lm)) + ' ; '.join(ops))
     # 7. sweep of the requested PGN: every value of the low 16 bits and every value of the high 8 bits occurs (thorough tier);
     #    the quick tier samples the same sequence
     ks = range(0, 65536) if thorough else r.sample(range(0, 65536), 600)
